@@ -1,0 +1,19 @@
+//! Verification hook (compiled only with `--cfg era_consensus_verif`): validator-network handshake.
+#![allow(missing_docs, unreachable_pub, private_interfaces, clippy::missing_docs_in_private_items)]
+use zksync_concurrency::ctx;
+use zksync_consensus_roles::{node, validator};
+
+use super::handshake;
+use crate::verif::TcpNoise;
+
+pub async fn handshake_inbound(ctx: &ctx::Ctx, me: &validator::SecretKey, genesis: validator::GenesisHash, stream: &mut TcpNoise) -> Result<validator::PublicKey, String> {
+    handshake::inbound(ctx, me, genesis, &mut stream.0).await.map_err(|e| format!("{e}"))
+}
+
+pub async fn handshake_outbound(ctx: &ctx::Ctx, me: &validator::SecretKey, genesis: validator::GenesisHash, stream: &mut TcpNoise, peer: &validator::PublicKey) -> Result<(), String> {
+    handshake::outbound(ctx, me, genesis, &mut stream.0, peer).await.map_err(|e| format!("{e}"))
+}
+
+pub fn handshake_bytes(session_id: validator::Signed<node::SessionId>, genesis: validator::GenesisHash) -> Vec<u8> {
+    zksync_protobuf::encode(&handshake::Handshake { session_id, genesis })
+}
